@@ -189,6 +189,54 @@ func VerifC03_SearchableSequence() {
 	verif.Assert(verif.Eq(out, damaged), "damaged-value-unchanged")
 }
 
+// VerifC03_SearchableLongPlaintextThenNext: a searchable value whose plaintext is as long as an index (33 bytes or
+// more) and starts with any byte — including the index tag byte — is revealed, and the same processor then handles
+// the next column (garbage, or another searchable value) without going down and without changing garbage.
+func VerifC03_SearchableLongPlaintextThenNext() {
+	crypto.InitRegistry(nil)
+	s := verifStore()
+	rh := crypto.NewRegistryHandler(s)
+	st := verifSetting(0)
+	enc, _ := NewSearchableEncryptor(s, rh, rh)
+	hs := GetDefaultHashSize()
+	plain := make([]byte, hs+verif.Choose("extra", 0, 1))
+	for i := range plain {
+		plain[i] = 'p'
+	}
+	plain[0] = verif.U8("first")
+	v1, err := enc.EncryptWithClientID([]byte("A"), verifDup(plain), st)
+	if err != nil {
+		return
+	}
+	v2, err := enc.EncryptWithClientID([]byte("A"), []byte("z"), st)
+	if err != nil {
+		return
+	}
+	proc := NewHMACProcessor(s)
+	det := crypto.NewEnvelopeDetector()
+	wrapper := crypto.NewOldContainerDetectorWrapper(det)
+	det.AddCallback(crypto.NewDecryptHandler(s, rh))
+	run := func(col []byte) []byte {
+		ctx := verifCtx("A")
+		ctx, out, _ := proc.OnColumn(ctx, verifDup(col))
+		ctx, out, _ = wrapper.OnColumn(ctx, out)
+		_, out, _ = proc.OnColumn(ctx, out)
+		return out
+	}
+	out := run(v1)
+	verif.Assert(verif.Eq(out, plain), "long-value-revealed")
+	verif.Reach("first-read")
+	if verif.Choose("next", 0, 1) == 0 {
+		garbage := verif.Bytes("garbage", 2)
+		out = run(garbage)
+		verif.Assert(verif.Eq(out, garbage), "next-column-garbage-unchanged")
+	} else {
+		out = run(v2)
+		verif.Assert(verif.Eq(out, []byte("z")), "next-searchable-value-revealed")
+	}
+	verif.Reach("second-read")
+}
+
 // VerifC14_ExtractHash: arbitrary bytes never panic the hash extractor.
 func VerifC14_ExtractHash() {
 	n := verif.Choose("n", 0, 36)
